@@ -25,6 +25,9 @@ enum S {
     Display,
     RefreshFull,  // 2in13_v2 set_refresh
     RefreshQuick, // 2in13_v2 set_refresh
+    /// sleep and wake_up as separate steps, so that a selection can be made in between
+    Sleep,
+    Wake,
     Frame,        // update_and_display_frame (thorough tier: stickiness must survive ordinary use)
     Clear,        // clear_frame
     /// another symbol of the panel's alphabet (partial updates / clears, quick-refresh pairs): the stickiness
@@ -41,6 +44,8 @@ impl S {
             S::SelQuick => vec![Op::arg(K::SetLut, 2)],
             S::Reload => vec![Op::arg(K::SetLut, 0)],
             S::SleepWake => vec![Op::new(K::Sleep), Op::new(K::WakeUp)],
+            S::Sleep => vec![Op::new(K::Sleep)],
+            S::Wake => vec![Op::new(K::WakeUp)],
             S::Display => vec![Op::new(K::Display)],
             S::RefreshFull => vec![Op::arg(K::SetRefresh, 1)],
             S::RefreshQuick => vec![Op::arg(K::SetRefresh, 2)],
@@ -53,6 +58,8 @@ impl S {
             S::SelQuick => "select-quick",
             S::Reload => "reload",
             S::SleepWake => "sleep+wake",
+            S::Sleep => "sleep",
+            S::Wake => "wake",
             S::Display => "display",
             S::RefreshFull => "set_refresh-full",
             S::RefreshQuick => "set_refresh-quick",
@@ -86,6 +93,7 @@ fn eval(spec: &'static Spec, refs: &Refs, seq: &[S], rep: Option<&mut Report>) -
     let mut out = Vec::new();
     let mut rig = Rig::simple(spec);
     let mut last_quick = false;
+    let mut asleep = false;
     let mut compared = 0u64;
     let name = |q: bool| if q { "quick" } else { "full" };
     for (i, s) in seq.iter().enumerate() {
@@ -101,6 +109,11 @@ fn eval(spec: &'static Spec, refs: &Refs, seq: &[S], rep: Option<&mut Report>) -
             S::SelFull | S::SelQuick => {
                 let q = *s == S::SelQuick;
                 last_quick = q;
+                // (a selection made while the controller sleeps is only remembered: what reaches the sleeping
+                // controller is not judged, the upload at wake-up is)
+                if asleep {
+                    continue;
+                }
                 compared += 1;
                 if spec.lut == LutKind::FullQuick && up != *want(q) {
                     out.push(("set_lut".into(), "select-uploads-other-table".into(), vec![format!("mode={}", name(q))], format!("step {}: selecting {} uploaded {:?}, the reference upload of that mode is {:?}", i + 1, name(q), short(&up), short(want(q)))));
@@ -127,7 +140,9 @@ fn eval(spec: &'static Spec, refs: &Refs, seq: &[S], rep: Option<&mut Report>) -
                     out.push(("set_lut".into(), "reload-uploads-other-mode".into(), vec![format!("last={}", name(last_quick))], format!("step {}: set_lut(None) uploaded {:?} while the mode last selected is {} ({:?})", i + 1, short(&up), name(last_quick), short(want(last_quick)))));
                 }
             }
-            S::SleepWake => {
+            S::Sleep => asleep = true,
+            S::SleepWake | S::Wake => {
+                asleep = false;
                 if refs.init_uploads {
                     compared += 1;
                     if up != *want(last_quick) {
@@ -153,6 +168,9 @@ fn short(u: &Upload) -> Vec<String> {
 struct Case {
     spec: &'static Spec,
     seq: Vec<S>,
+    /// sequence with a selection between sleep and wake_up; `atomic` is the same sequence with the selection
+    /// moved in front of an atomic sleep+wake step - only what that one does not show is reported
+    atomic: Option<Vec<S>>,
 }
 
 pub fn run(ctx: &Ctx) -> Report {
@@ -191,7 +209,7 @@ pub fn run(ctx: &Ctx) -> Report {
                 }
             }
             for n in &next {
-                cases.push(Case { spec, seq: n.clone() });
+                cases.push(Case { spec, seq: n.clone(), atomic: None });
             }
             cur = next;
         }
@@ -206,13 +224,27 @@ pub fn run(ctx: &Ctx) -> Report {
                 for tail in [vec![S::Reload], vec![S::SleepWake], vec![S::SleepWake, S::Reload], vec![S::Display, S::Reload]] {
                     let mut v = vec![sel, *o];
                     v.extend(tail.iter().cloned());
-                    cases.push(Case { spec, seq: v });
+                    cases.push(Case { spec, seq: v, atomic: None });
                     let mut v2 = vec![S::SelQuick, S::SelFull, *o];
                     if sel == S::SelQuick {
                         v2 = vec![S::SelFull, S::SelQuick, *o];
                     }
                     v2.extend(tail.iter().cloned());
-                    cases.push(Case { spec, seq: v2 });
+                    cases.push(Case { spec, seq: v2, atomic: None });
+                }
+            }
+        }
+        // a mode selected between sleep and wake_up is the mode last selected when the panel wakes up
+        for a in [None, Some(S::SelFull), Some(S::SelQuick)] {
+            for b in [S::SelFull, S::SelQuick] {
+                for tail in [vec![], vec![S::Reload], vec![S::Display, S::Reload]] {
+                    let mut v: Vec<S> = a.into_iter().collect();
+                    let mut at = v.clone();
+                    v.extend([S::Sleep, b, S::Wake]);
+                    at.extend([b, S::SleepWake]);
+                    v.extend(tail.iter().cloned());
+                    at.extend(tail.iter().cloned());
+                    cases.push(Case { spec, seq: v, atomic: Some(at) });
                 }
             }
         }
@@ -252,8 +284,22 @@ pub fn run(ctx: &Ctx) -> Report {
                 if fails.is_empty() && rep.samples.len() < 10 && c.seq.len() >= 3 {
                     rep.sample(J::obj().set("panel", spec.name).set("variant", variant.as_str()).set("sequence", tagseq(&c.seq)));
                 }
+                let atomic_sigs: Vec<String> = match &c.atomic {
+                    Some(at) => eval(spec, &refs, at, None).map(|v| v.iter().map(|(e, cl, tg, _)| format!("{}|{}|{}", e, cl, tg.join(","))).collect()).unwrap_or_default(),
+                    None => vec![],
+                };
                 for (entry, class, tags, detail) in fails {
                     let sig0 = format!("{}|{}|{}", entry, class, tags.join(","));
+                    if c.atomic.is_some() {
+                        if atomic_sigs.contains(&sig0) {
+                            continue; // the sequence with the atomic sleep+wake step shows (and reports) the same
+                        }
+                        let mut tags = tags;
+                        tags.push("selected-while-asleep".into());
+                        tags.push(format!("seq:{}", tagseq(&c.seq)));
+                        rep.fail(Failure { panel: spec.name.into(), entry, class, tags, detail: format!("{} | seen in: {}", detail, tagseq(&c.seq)), case: J::obj().set("panel", spec.name).set("variant", variant.as_str()).set("sequence", tagseq(&c.seq)) });
+                        continue;
+                    }
                     // minimise the sequence
                     let mut cur = c.seq.clone();
                     let mut changed = true;
